@@ -3,6 +3,7 @@ package main
 import (
 	"encoding/hex"
 	"fmt"
+	"strings"
 	"time"
 
 	"verifsim/simnet"
@@ -263,12 +264,30 @@ func c04Enumerate(bin string, master uint64, tier string) ([]*spec.RunSpec, []st
 		limit = 40000
 	}
 	if len(out) > limit {
-		// a strided subset whose offset comes from the seed
-		stride := len(out)/limit + 1
-		var sub []*spec.RunSpec
-		off := int(master % uint64(stride))
-		for i := off; i < len(out); i += stride {
-			sub = append(sub, out[i])
+		// Whole-segment mutations (duplicate, drop, swap, reorder, reflect, splice: a handful per
+		// segment) are always run; the byte-level ones (field x offset x kind: the bulk of the
+		// list) are thinned to a strided subset whose offset comes from the seed.
+		var whole, bytewise []*spec.RunSpec
+		for _, c := range out {
+			if strings.Contains(c.Profile, ")/") && strings.Contains(c.Profile, "@") {
+				bytewise = append(bytewise, c)
+			} else {
+				whole = append(whole, c)
+			}
+		}
+		room := limit - len(whole)
+		if room < limit/4 {
+			room = limit / 4
+		}
+		sub := whole
+		if len(bytewise) > room {
+			stride := len(bytewise)/room + 1
+			off := int(master % uint64(stride))
+			for i := off; i < len(bytewise); i += stride {
+				sub = append(sub, bytewise[i])
+			}
+		} else {
+			sub = append(sub, bytewise...)
 		}
 		out = sub
 	}
